@@ -393,6 +393,49 @@ PROPS["C17"] = {
     ],
 }
 
+PROPS["C11"] = {
+    "level": "exploration",
+    "rule": "cases are workloads of 2-8 client goroutines, each owning one location of ONE fresh engine and issuing 2-9 requests "
+            "(AddFact, RemFact, GetFact, SearchFacts, AddRule, RemRule, EnableRule, ProcessEvent); all clients are released together "
+            "(generated spin delays) so that the engine's very first requests race; driver sys.System (2/3) or HTTPService.ServeHTTP "
+            "(1/3); indexed or linear. Oracle: every client's result sequence equals that of the same sequence run alone on a fresh "
+            "engine; each location's records in the engine's storage equal those of the solo run; no crash, no deadlock (30 s); a "
+            "second part runs the same workloads under the race detector and every data race report is a violation. Non-trivial = "
+            ">= 3 clients with >= 5 requests each and >= 3 writes. Distinct = distinct canonical JSON.",
+    "assumptions": COMMON_ASSUMPTIONS + [
+        "schedules are sampled (spin delays, 16 cores, race detector), not enumerated or controlled",
+        "a failure found here is schedule-dependent: the saved case reproduces it only with some probability",
+    ],
+    "parts": [
+        {"name": "sequential-oracle", "mode": "plain", "test": "TestC11",
+         "quick": {"checks": 600, "shards": 4}, "thorough": {"checks": 8000, "shards": 16}},
+        {"name": "race-detector", "mode": "race", "test": "TestC11",
+         "quick": {"checks": 80, "shards": 4}, "thorough": {"checks": 1000, "shards": 16}},
+    ],
+}
+PROPS["C12"] = {
+    "level": "exploration",
+    "rule": "cases are workloads of 2-8 client goroutines with 3-8 operations each from AddFact/RemFact/GetFact/SearchFacts/AddRule/"
+            "RemRule/EnableRule/ProcessEvent over the shared ids f1, f2, r1, r2 of ONE location (indexed or linear); written values "
+            "and rule tags carry (client, sequence number). Oracle: porcupine finds a linearisation of the recorded call/return "
+            "history (plus final reads of every fact id and a final event) under a sequential model of these operations; the final "
+            "storage records agree with the final in-memory facts; every operation succeeds; no crash, no deadlock (30 s); a second "
+            "part runs the same workloads under the race detector and every data race report is a violation. Non-trivial = two "
+            "clients wrote the same id with overlapping call intervals (measured from the recorded history). Distinct = distinct "
+            "canonical JSON.",
+    "assumptions": COMMON_ASSUMPTIONS + [
+        "schedules are sampled (spin delays, 16 cores, race detector), not enumerated or controlled; the optional yield hooks of the property were not built",
+        "expiry-driven removals are not part of the concurrent workloads (they need real time to pass)",
+        "a failure found here is schedule-dependent: the saved case reproduces it only with some probability",
+    ],
+    "parts": [
+        {"name": "linearizability", "mode": "plain", "test": "TestC12",
+         "quick": {"checks": 600, "shards": 4}, "thorough": {"checks": 8000, "shards": 16}},
+        {"name": "race-detector", "mode": "race", "test": "TestC12",
+         "quick": {"checks": 80, "shards": 4}, "thorough": {"checks": 1000, "shards": 16}},
+    ],
+}
+
 # Properties deliberately not claimed (reason shown in MANIFEST.not_applicable).
 NOT_APPLICABLE = {}
 
@@ -483,6 +526,16 @@ TEXT = {
         "technique": _PBT + "metamorphic: one generated request history replayed under every cache configuration must give identical results; generated concurrent bursts with an instance-identity / write-visibility oracle",
         "level_text": "Generated exploration of request histories across cache TTLs and of concurrent first-request bursts. Not a proof; the concurrent part samples schedules.",
         "level_note": "Trusted: result normalisers shared with C18; real time pauses of 3 ms vs a 1 ms TTL.",
+    },
+    "C11": {
+        "technique": _PBT + "generated concurrent workloads on disjoint locations vs per-client sequential oracle (differential against a solo run) + race detector",
+        "level_text": "Generated exploration of concurrent workloads; schedules are sampled, not controlled. Not a proof.",
+        "level_note": "Trusted: Go race detector; solo-run oracle; journaled child processes for crashes and deadlocks.",
+    },
+    "C12": {
+        "technique": _PBT + "generated concurrent workloads on shared ids; linearizability oracle (porcupine) over the recorded history + memory/storage agreement + race detector",
+        "level_text": "Generated exploration of concurrent workloads on one location with a linearizability check of every observed history; schedules are sampled, not controlled. Not a proof.",
+        "level_note": "Trusted: porcupine checker and the sequential model in props/c12_test.go; Go race detector.",
     },
     "C05": {
         "technique": _PBT + "generated (pattern, data, bindings) vs independent brute-force matcher; substitution round-trip; metamorphic typed variants",
